@@ -352,6 +352,11 @@ func appendSlice(expr ast.Expr, lhsV reflect.Value, rhsV reflect.Value) (reflect
 		for i := 0; i < rhsV.Len(); i++ {
 			value := rhsV.Index(i)
 			if rhsT == interfaceType {
+				if value.IsNil() {
+					// nil converts to the zero value of the element type
+					lhsV = reflect.Append(lhsV, reflect.Zero(lhsT))
+					continue
+				}
 				value = value.Elem()
 			}
 			if lhsT == value.Type() {
